@@ -9,8 +9,9 @@ import Logrange.Generated.C17
   `X` (the context is cancelled while a Read runs). `readLine` is called until it answers "closed"; a clean `eof`
   is printed and the calls go on (the file may grow later). Answer: `<hex line | eof>* closed:<pending hex> pos=<n>`.
 * `sw <recsPerEvent> <0|1|code> <start> <label>*` — the worker LTS; labels `step r<hex> eof err send conf set wake
-  stop cancel persist`. Answer: the observable fields of the final state.
-* `merge <nOld> (<id> <offset> <size>)* <nNew> (<id> <offset> <size>)*` — `mergeDescs`; answer per new descriptor
+  stop cancel persist fpersist`. Answer: the observable fields of the final state.
+* `merge <nOld> (<id> <offset> <size>)* <nNew> (<id> <offset> <size> <restat|->)*` — `mergeDescs`; `restat` is what a
+  second stat of the file answers (`-` = it fails or yields another id); answer per new descriptor
   `<id>:<offset>:<size>:<kept 0|1>`.
 -/
 open Go Driver Logrange.LineReader Logrange.ScanWorker Logrange.Descs
@@ -44,6 +45,7 @@ def parseLabel (t : String) : Option L :=
   else if t == "stop" then some .stopOnEOF
   else if t == "cancel" then some .cancel
   else if t == "persist" then some .persist
+  else if t == "fpersist" then some .finalPersist
   else if t.startsWith "r" then some (.next (.record (unhex (t.drop 1).toString)))
   else none
 
@@ -65,20 +67,29 @@ def parseDescs : Nat → List String → List Desc × List String
     (⟨unhex id, off.toNat!, sz.toNat!⟩ :: ds, r')
   | _, r => ([], r)
 
+/-- new descriptors carry what a second stat of the file would answer (`-` = it fails / another id) -/
+def parseNewDescs : Nat → List String → List (Desc × Option Nat) × List String
+  | 0, r => ([], r)
+  | n+1, id :: off :: sz :: rs :: r =>
+    let (ds, r') := parseNewDescs n r
+    ((⟨unhex id, off.toNat!, sz.toNat!⟩, rs.toNat?) :: ds, r')
+  | _, r => ([], r)
+
 def step (_ : Unit) (toks : List String) : Unit × String :=
   match toks with
   | "lr" :: b :: start :: pieces => ((), runLr b.toNat! start.toNat! (pieces.map parsePiece))
   | "sw" :: k :: sb :: start :: labels =>
     let sample := if sb == "code" then Logrange.Generated.C17.stateSampledBeforeNextRecord else sb == "1"
     match labels.mapM parseLabel with
-    | some ls => ((), showS (run ⟨k.toNat!, sample⟩ (init start.toNat!) ls))
+    | some ls =>
+      ((), showS (run ⟨k.toNat!, sample, Logrange.Generated.C17.finalPersistAfterWorkersWait⟩ (init start.toNat!) ls))
     | none => ((), "bad-op")
   | "merge" :: nOld :: rest =>
     let (old, r1) := parseDescs nOld.toNat! rest
     match r1 with
     | nNew :: r2 =>
-      let (new, _) := parseDescs nNew.toNat! r2
-      let outs := (mergeDescs old new).map (fun (d, k) => s!"{hex d.id}:{d.offset}:{d.lastSeenSize}:{b01 k}")
+      let (new, _) := parseNewDescs nNew.toNat! r2
+      let outs := (mergeDescs Logrange.Generated.C17.mergeRestatsAfterOffset old new).map (fun (d, k) => s!"{hex d.id}:{d.offset}:{d.lastSeenSize}:{b01 k}")
       ((), if outs.isEmpty then "-" else " ".intercalate outs)
     | [] => ((), "bad-op")
   | _ => ((), "bad-op")
